@@ -14,7 +14,7 @@ for p in $props; do
     d=seeded/$p/$v
     [ -f $d/patch.diff ] || continue
     git -C $WT checkout -q -- . ; git -C $WT clean -fdq
-    if ! git -C $WT apply $d/patch.diff 2>/dev/null; then echo "SEED $p/$v patch-does-not-apply"; continue; fi
+    if ! git -C $WT apply /verif/$d/patch.diff 2>/dev/null; then echo "SEED $p/$v patch-does-not-apply"; continue; fi
     also=""; [ -f $d/also ] && also=$(cat $d/also)
     res=""
     for q in $p $also; do
